@@ -145,11 +145,11 @@ Section Propagation.
     assert (Hch : forall mc, In mc (children g n) -> scof sc' (snd mc) = scof sc (snd mc)).
     { intros mc H. apply compute_other. apply (no_self n mc H). }
     assert (NM : s_nm (scof sc' n) = s_nm (scof sc n)).
-    { pose proof (eq_negamax_det (set_sc g sc') (set_sc g sc) n eq_refl eq_refl) as D.
+    { pose proof (eq_negamax_det (set_sc g sc') (set_sc g sc) n eq_refl eq_refl eq_refl) as D.
       rewrite !score_set_sc in D. apply D; [|exact A|exact G1].
       intros mc H. rewrite !score_set_sc, Hch by exact H. reflexivity. }
     assert (CO : forall w, cost_of w (scof sc' n) = cost_of w (scof sc n)).
-    { intro w. pose proof (eq_cost_det bd (set_sc g sc') (set_sc g sc) n w eq_refl eq_refl eq_refl eq_refl) as D.
+    { intro w. pose proof (eq_cost_det bd (set_sc g sc') (set_sc g sc) n w eq_refl eq_refl eq_refl eq_refl eq_refl) as D.
       rewrite !node_cost_set_sc, !score_set_sc in D. apply D; [exact NM| |destruct w; assumption|destruct w; assumption].
       intros mc H. rewrite !score_set_sc, !node_cost_set_sc, Hch by exact H. split; reflexivity. }
     unfold nmec. rewrite NM. pose proof (CO true) as E1. pose proof (CO false) as E2. cbn [cost_of] in E1, E2.
